@@ -57,11 +57,14 @@ let parse_dir () : tfile list =
   let nfiles = next_int () in
   Stdlib.List.init nfiles (fun _ -> ()) |> Stdlib.List.map (fun () ->
     let v = bytes_of_string (unhex (next ())) in
-    let dir = match next () with "-" -> None | "bad" -> Some None | m -> Some (Some (mode_of m)) in
+    let dtok = next () in
+    let ckpt = String.length dtok > 0 && dtok.[String.length dtok - 1] = '!' in
+    let dtok = if ckpt then String.sub dtok 0 (String.length dtok - 1) else dtok in
+    let dir = match dtok with "-" -> None | "bad" -> Some None | m -> Some (Some (mode_of m)) in
     let bad = match next () with "-" -> None | k -> Some (nat_of_int (int_of_string k)) in
     let ns = next_int () in
     let stmts = Stdlib.List.init ns (fun _ -> ()) |> Stdlib.List.map (fun () -> bytes_of_string (unhex (next ()))) in
-    { tf_file = { f_version = v; f_stmts = stmts; f_ckpt = false }; tf_directive = dir; tf_bad = bad })
+    { tf_file = { f_version = v; f_stmts = stmts; f_ckpt = ckpt }; tf_directive = dir; tf_bad = bad })
 
 let () =
   (try
